@@ -100,7 +100,7 @@ PINS = {
     "C03": {"inv", "ret", "gq0", "cq", "skip", "err"},
     "C04": {"cq", "br", "gq0", "inv", "skip", "err"},
     "C06": {"err", "sq", "cq", "gq0", "pr", "leak", "inv", "skip"},
-    "C07": {"pf", "leak", "err", "skip"},
+    "C07": {"pf", "pr", "leak", "err", "skip"},
     "C08": {"inv", "ret", "gq0", "cq", "skip", "err"},
     "C12": {"br", "inv", "ret", "cq", "sq", "gq0", "skip", "err"},
     "C13": {"inv", "ret", "skip", "err"},
